@@ -189,7 +189,7 @@ def main(tier):
                 msg = 'pformat raised or warned: %s %s' % (c.text[:60], c.warnings[:1])
             else:
                 msg = oracle_text(s, c.origin, c.text)
-                if len(PC.string_tokens(c.text)) > (2 if c.origin == 'call-arg' else 1):
+                if msg is None and len(PC.string_tokens(c.text)) > (2 if c.origin == 'call-arg' else 1):
                     split.add((c.sx, c.cfg['width']))
             if msg:
                 viol += 1
